@@ -37,7 +37,7 @@ def family(api):
         return "status"
     if api in ("open_channel", "open_session"):
         return "open"
-    if api == "global_request":
+    if api in ("global_request", "request_port_forward"):
         return "global"
     if api == "renegotiate_keys":
         return "rekey"
@@ -254,6 +254,8 @@ class Env:
             return lambda: v.open_session(timeout=T)
         if api == "global_request":
             return lambda: v.global_request("c13@verif", wait=True)
+        if api == "request_port_forward":
+            return lambda: v.request_port_forward("127.0.0.1", 0)
         if api == "renegotiate_keys":
             return lambda: v.renegotiate_keys()
         if api in ("auth_password", "srt_auth_password"):
